@@ -107,6 +107,17 @@ class History:
                 self.log.append((op, i if ref is not None else None, None, [x.raw_text for x in new]))
                 store.splice(new, ref)
                 shadow[i:i] = new
+            elif n >= 2 and r.random() < 0.12:
+                # the empty range at i, given as (token i, the token before it): an insertion at i for a list (lst[i:i] = new),
+                # whichever side of a block boundary the two tokens are on
+                i = r.randrange(1, n)
+                info.update(i=i, j=i - 1, k=len(new), first_changed=i, changed=bool(new), empty_range=True)
+                self.log.append((op + '-empty-range', i, [x.raw_text for x in new]))
+                if new or r.random() < 0.5:
+                    store.splice(new, shadow[i], shadow[i - 1])
+                    shadow[i:i] = new
+                else:
+                    store.remove(shadow[i], shadow[i - 1])
             else:
                 i = r.randrange(n)
                 j = min(n - 1, i + r.choice([0, 1, 2, lf, 2 * lf, 4 * lf]))
